@@ -238,11 +238,11 @@ func (c *Client) GetTokenInfo(ctx context.Context, tokenId Byte32) (*TokenInfo, 
 		return nil, fmt.Errorf("invalid token symbol")
 	}
 	nameResult := result.Results[1]
-	if symbolResult.CallContractSucceeded == nil || len(nameResult.CallContractSucceeded.Returns) != 1 {
+	if nameResult.CallContractSucceeded == nil || len(nameResult.CallContractSucceeded.Returns) != 1 {
 		return nil, fmt.Errorf("invalid token name")
 	}
 	decimalsResult := result.Results[2]
-	if symbolResult.CallContractSucceeded == nil || len(decimalsResult.CallContractSucceeded.Returns) != 1 {
+	if decimalsResult.CallContractSucceeded == nil || len(decimalsResult.CallContractSucceeded.Returns) != 1 {
 		return nil, fmt.Errorf("invalid token decimals")
 	}
 
